@@ -367,3 +367,71 @@ def _reaches_without_kill(cfg, src, dst, kills):
         for s in cfg.succ[b]:
             work.append((s, 0))
     return False
+
+
+# ---------------------------------------------------------------------------
+def uninit_local_reads(run, fns, rule='R1', instance='local-init'):
+    """Definite-assignment analysis for scalar / pointer locals declared without an initialiser: every read
+    must be preceded by an assignment on every path. Returns the number of such declarations."""
+    import intervals
+    n_decl = 0
+    for fn in fns:
+        if fn.cfg is None:
+            continue
+        cands = {}
+        for d in fn.all_nodes():
+            if d['k'] != 'decl':
+                continue
+            for v in d['vars']:
+                ty = fn.types[v['t']]
+                if v.get('init') is None and v.get('did') is not None and not v.get('static') and (intervals.type_range(ty) is not None or ty.rstrip().endswith('*')):
+                    cands[v['did']] = (v['name'], d)
+        if not cands:
+            continue
+        n_decl += len(cands)
+        cfg = fn.cfg
+        # events per block position
+        ev = {}
+        for n in fn.all_nodes():
+            if n['k'] == 'ref' and n.get('did') in cands:
+                kind = q.classify_access(fn, n)[0]
+                pos = cfg.node_pos(n)
+                if pos is None:
+                    continue
+                if kind in ('assign', 'refarg', 'addr', 'ref'):
+                    site = q.classify_access(fn, n)[1]
+                    ps = cfg.node_pos(site) or pos
+                    ev.setdefault(ps[0], []).append((ps[1], 'def', n['did'], n))
+                elif kind in ('compound', 'incdec', 'read', 'arg', 'method', 'move'):
+                    ev.setdefault(pos[0], []).append((pos[1], 'use', n['did'], n))
+        for b in ev:
+            ev[b].sort(key=lambda e: (e[0], 0 if e[1] == 'use' else 1))
+        # forward must-analysis: set of definitely assigned dids
+        allv = set(cands)
+        state = {cfg.entry: set()}
+        work = [cfg.entry]
+        bad = {}
+        it = 0
+        while work and it < 5000:
+            it += 1
+            b = work.pop()
+            cur = set(state[b])
+            for pos, kind, did, node in ev.get(b, []):
+                if kind == 'use' and did not in cur:
+                    bad.setdefault(did, node)
+                elif kind == 'def':
+                    cur.add(did)
+            for s in cfg.succ[b]:
+                if s not in state:
+                    state[s] = set(cur); work.append(s)
+                else:
+                    new = state[s] & cur
+                    if new != state[s]:
+                        state[s] = new; work.append(s)
+        for did, (name, d) in cands.items():
+            if did in bad:
+                run.violation(rule, instance, '%s: local %s' % (fn.norm, name), fn.loc(bad[did]),
+                              'local %s (%s) is declared without an initialiser and read here on a path where nothing was assigned to it: its value is whatever the stack held' % (name, fn.types[d['vars'][0]['t']]))
+            else:
+                run.ok(rule, instance, '%s: local %s' % (fn.norm, name), fn.loc(d), 'assigned on every path before every read')
+    return n_decl
